@@ -460,6 +460,16 @@ func fetchDocWithIDAndItsSubDocs(node planNode, docID string) (immutable.Option[
 
 	prefixes := []keys.Walkable{dsKey}
 
+	// The document is looked up by its ID. An index that was chosen for this scan (to serve a filter
+	// or an order) does not read the given prefix, it would yield the first document of the index instead.
+	if scan.index.HasValue() {
+		if err := scan.fetcher.Close(); err != nil {
+			return immutable.None[core.Doc](), err
+		}
+		scan.index = immutable.None[client.IndexDescription]()
+		scan.initFetcher(immutable.None[string]())
+	}
+
 	node.Prefixes(prefixes)
 
 	if err := node.Init(); err != nil {
